@@ -253,6 +253,9 @@ func supervise(c *Check, tier string, seed int64) int {
 					}
 				}
 				key, ok := readJournal(jr)
+				if strings.HasPrefix(key, progressMark) {
+					key = "" // the worker was between cases (enumerating), not inside one
+				}
 				kind := "process-death"
 				if hung {
 					kind = "hang"
